@@ -49,6 +49,18 @@ ATOMS = [
     "datetime.time(3, 4)", "datetime.timedelta(days=1)", "datetime.timedelta(seconds=86401)",
     "datetime.timezone.utc", "PurePosixPath('a')", "PurePosixPath('/a/b')", "PurePosixPath('.')",
 ]
+# cross-type aliases of the packed representations: an int whose 8 bytes are a float of the alphabet, a string
+# whose UTF-8 bytes are the 4-byte packing of an int / the 8-byte packing of a float
+ATOMS += [
+    "4607182418800017408",      # bits of 1.0
+    "2**62",                    # bits of 2.0
+    "9218868437227405312",      # bits of +inf
+    "4609434218613702656",      # bits of 1.5
+    "-2**63",                   # bits of -0.0
+    "1633837924", "'abcd'",     # 0x61626364
+    "1.2926117907728089e+161", "'abcdefgh'",   # struct.pack('!d', x) == b'abcdefgh'
+    "'\\x00\\x00\\x00\\x01'", "'4607182418800017408'", "'1.0'", "'True'",
+]
 SMALL = ["None", "0", "1", "''", "'a'", "1.5", "True"]
 TINY = ["None", "0", "''", "'a'"]
 KEYS = ["'a'", "'b'", "''", "0", "1", "'|'"]
@@ -197,7 +209,10 @@ def witness(a, b):
             diffs = sorted([(da[k], db[k]) for k in da if da[k] != db[k]], key=repr)
             if diffs:
                 return witness(*diffs[0])
-    ka, kb = sorted([kind(a), kind(b)])
-    if ka == kb and a[0] in ("i", "f", "s"):
-        return (ka + ":" + repr(a[1])[:12], kb + ":" + repr(b[1])[:12])
+    def atom(c):
+        k = kind(c)
+        if c[0] in ("i", "f", "s") and ":" not in k:
+            return k + ":" + repr(c[1])[:24]
+        return k
+    ka, kb = sorted([atom(a), atom(b)])
     return (ka, kb)
